@@ -141,10 +141,10 @@ def parts(tier):
         for w in whens:
             for delay in range(0, nw + 1):
                 for ri in range(len(REASONS)):
-                    if ri not in (1, 2) and delay not in (0, 1):
+                    if tier == 'quick' and ri not in (1, 2) and delay not in (0, 1):
                         continue
                     for t in twins:
-                        sc.append({'size': size, 'when': w, 'delay': delay, 'reason': ri, 'twin': t, 'kmax': 0 if (ri == 3 or delay > 1) else (1 if tier == 'quick' else 2)})
+                        sc.append({'size': size, 'when': w, 'delay': delay, 'reason': ri, 'twin': t, 'kmax': (0 if tier == 'quick' else 1) if (ri == 3 or delay > 1) else (1 if tier == 'quick' else 2)})
     out.append(Part('push-fail', sc, run_push_fail, {'*': None}, what='push: FAIL at every point x every position among the OKAYs x reasons x cut sets',
                     bound='files of 100..17000 bytes (1..5+ host WRTEs); <=%d cuts' % (1 if tier == 'quick' else 2)))
     sc = [{'op': op, 'id': sid, 'after': a, 'twin': t} for op in ('pull', 'list', 'stat', 'push') for sid in IDS if sid not in VALID[op]
